@@ -880,6 +880,13 @@ func (c11Checker) Run(tp *Tapes, opt RunOpt) *Outcome {
 	allowed := c11Allowed(sp)
 	check := func(faults []c11Fault, label string) (runOut, bool) {
 		ro := doRun(faults)
+		norm := func(x string) string {
+			if sp.Root != "" {
+				return strings.ReplaceAll(x, sp.Root, "$ROOT")
+			}
+			return x
+		}
+		out.dig(norm(ro.res.Out), norm(ro.res.Err), firstLine(ro.res.Panic))
 		want, fetched, probes := reference(faults)
 		for k, v := range probes {
 			for i := 0; i < v; i++ {
